@@ -82,7 +82,10 @@ def collect_validated(
     """
     try:
         return validated.collect()
-    except pl.exceptions.PolarsError as exc:
+    except (
+        pl.exceptions.InvalidOperationError,
+        pl.exceptions.ComputeError,
+    ) as exc:
         error = SchemaError(
             schema=schema,
             data=validated,
